@@ -42,6 +42,10 @@ CHECKS = {
    text="18 HTTP/1.1 request heads (valid, at the header-count and size limits, near-miss invalid) + payload, delivered to the real accept path (Http1Codec + HttpDownstream + Tunnel + DirectForwarder) over a scripted transport under every 1-cut and 2-cut segmentation (all byte positions for short streams, structural positions for ~1 KiB heads) and byte-at-a-time, the endpoint running to quiescence between pieces. Oracle: outcome (response, bytes reaching the destination, bytes relayed back, closure) identical to the one-piece delivery, itself checked against an independent expectation; no polling of the transport while input is outstanding; a delivery that never returns is reported by an OS-thread watchdog; bytes pulled before a rejection <= 1 KiB + one read.",
    note="select! start index fixed at 0; quiescence = 40 idle scheduler turns; heads >= 1024 bytes may be accepted or rejected depending on read sizes.",
    tech="bounded-exhaustive enumeration of inputs x segmentations (arrival schedules) on the real accept path, differential + independent oracle, watchdog for non-termination"),
+ "C07": dict(cat="model_checking",
+   text="Explicit-state breadth-first search over operation histories (depth 6 quick / 9 thorough) of {client datagram on 4 flows incl. a port-53 flow, peer reply, late reply on an expired flow's socket, clock step T/4+1ms, datagram to an unconnectable destination, burst to a closed port} on the real udp_pipe::DuplexPipe + real direct-forwarder multiplexer with real loopback UDP peers under a paused clock. After every operation: each peer received exactly the datagrams addressed to it, distinct flows use distinct sockets, each reply reaches the client labelled (flow destination -> flow source), outbound_udp_sockets equals the live flows of a reference model (expiry after T, DNS flows closed when answered), and the multiplexer is still running.",
+   note="States merged on (reference-model state incl. how each flow was last refreshed, gauge). The SOCKS5 UDP relay is not driven here. Loopback delivery is synchronous; 120 scheduler turns count as quiescence.",
+   tech="explicit-state model checking: BFS over operation histories, every transition re-executed on the real implementation, invariant + reference-model comparison in every state"),
 }
 NOT_YET = "check not built yet in this round (planned, see DESIGN.md section 3)"
 
